@@ -279,10 +279,10 @@ def execute(trace) -> CaseResult:
         inv_now = {t: k for k, t in now.items()}
         for k, t in ps.keymap.items():
             if t in inv_now and inv_now[t] != k:
-                return "renumbered"
+                return "stale-key:renumbered"
         for k, t in ps.keymap.items():
             if k in now and now[k] != t:
-                return "key-reused"
+                return "stale-key:key-reused"
         return ""
 
     async def observe(what: str, judge_uids: bool = True):
@@ -599,7 +599,7 @@ def execute(trace) -> CaseResult:
             if moved:
                 v("C20.quit.uid-changed" if how == "quit" else "C20.no-quit.uid-changed",
                   f"session {ps.name}: after {how} with marks {sorted(ps.marked)} the surviving messages have other IMAP UIDs (tag, before, after): {moved}; "
-                  f"for IMAP clients and for other POP3 sessions these are removed and re-added messages", sig)
+                  f"for IMAP clients and for other POP3 sessions these are removed and re-added messages", "uids-reassigned")
                 stop = True
         for u, t in got_new:
             if t not in unnumbered_before:
@@ -1019,7 +1019,15 @@ class _Stop(Exception):
 
 
 def finding_matches(finding, vj):
-    sigs = finding.get("sigs")
-    if sigs is not None and vj.get("sig") not in sigs:
+    """An open finding may name one `clause` (checked by the runner) or a list `clauses`,
+    and restrict the buckets by exact `sigs` and/or `sig_substrings` (e.g. "stale-key")."""
+    cl = finding.get("clauses")
+    if cl is not None and vj.get("clause") not in cl:
         return False
+    sigs = finding.get("sigs")
+    subs = finding.get("sig_substrings")
+    sig = vj.get("sig") or ""
+    if sigs is not None or subs is not None:
+        if not ((sigs is not None and sig in sigs) or (subs is not None and any(x in sig for x in subs))):
+            return False
     return True
